@@ -1137,7 +1137,11 @@ def _generate_deltas(repository, log_rev_iterator, delta_type, files, direction)
             for rev, delta in zip(revs, deltas, strict=False):
                 new_revs.append((rev[0], rev[1], delta))
         else:
-            deltas = repository.get_revision_deltas(revisions, specific_files=file_set)
+            # get_revision_deltas is a generator that keeps using specific_files
+            # while _update_files below changes file_set: give it its own copy.
+            deltas = repository.get_revision_deltas(
+                revisions, specific_files=list(file_set) if check_files else None
+            )
             for rev, delta in zip(revs, deltas, strict=False):
                 if check_files:
                     if delta is None or not delta.has_changed():
